@@ -35,10 +35,14 @@ ALLOWED_EXC = ('ECMASyntaxError', 'ECMARegexSyntaxError')
 # sites the lint cannot discharge automatically, confirmed safe by reading;
 # keyed by function + normalised expression.  One line of reason each.
 TRIAGE_NULL = {
-    ('p_error', 'regex_token'):
+    ('*', 'self.lexer'): 'never None after __init__',
+}
+# calls whose result is never None although the callee is believed
+# nullable in general, by callee name with the reason
+NONNULL_SOURCES = {
+    'self.lexer.backtracked_token':
         'backtracked_token re-lexes from an existing `/` character, so '
         'token() cannot be at end of input: it returns a token or raises',
-    ('_raise_syntax_error', 'self.lexer'): 'never None after __init__',
 }
 TRIAGE_PARTIAL = {
     ('lookup_colno', 'self.newline_idx[lineno - 1]'):
@@ -236,6 +240,98 @@ def norm_call(f):
     return f.split('.')[-1]
 
 
+TABLE_COVERED = ('broken_string_token_handler', '_raise_syntax_error')
+
+
+def r126(report, index, lm, pm, tier):
+    """the two error-message builders are total: evaluated from their
+    source on a finite domain they either return or raise the library
+    syntax error, never IndexError / KeyError / AttributeError"""
+    import itertools
+    import re as _re
+    r6 = report.rule('R12.6', 'error message builders raise only the '
+                     'syntax error (decision tables by evaluation)',
+                     floor=100)
+    # Parser._raise_syntax_error over the presence of its three tokens
+    pmeth = pm.class_methods('Parser')
+    fn = pmeth.get('_raise_syntax_error')
+    if fn is None:
+        raise AnalysisError('Parser._raise_syntax_error vanished')
+
+    def tk(v):
+        return Obj('LexToken', type='ID', value=v, lineno=1, colno=1,
+                   lexpos=0)
+    for prev, cur, nxt in itertools.product(
+            (None, 'tok'), (None, 'auto', 'tok'), (None, 'tok')):
+        lexer = Obj('Lexer', valid_prev_token=tk('a') if prev else None,
+                    token=('pyfunc', lambda nxt=nxt: tk('c') if nxt
+                           else None))
+        token = None if cur is None else (
+            Obj('AutoLexToken', type='AUTOSEMI', value=';', lineno=1,
+                colno=0, lexpos=0) if cur == 'auto' else tk('b'))
+        ev = Evaluator(pm, 'Parser', pmeth, {
+            'format_lex_token': lambda t: '<%s>' % t.value,
+            'repr_compat': repr})
+        out = 'returns'
+        try:
+            ev.call(fn, [token], self_obj=Obj('Parser', lexer=lexer))
+        except Raised as e:
+            out = e.text
+        r6.check(out.startswith('ECMASyntaxError'),
+                 '_raise_syntax_error prev=%s token=%s next=%s' % (
+                     prev, cur, nxt),
+                 'Parser._raise_syntax_error(previous %s, offending %s, '
+                 'next %s)' % (prev, cur, nxt),
+                 'does not raise the syntax error: %s' % out[:120],
+                 where='parsers/es5.py:_raise_syntax_error')
+    # broken_string_token_handler over all short inputs
+    h = lm.functions.get('broken_string_token_handler')
+    if h is None:
+        raise AnalysisError('broken_string_token_handler vanished')
+    alphabet = ['"', "'", '\\', 'x', 'u', '8', 'a', '\n', '0', 'F', ' ']
+    maxlen = 4 if tier == 'thorough' else 3
+    n = 0
+    bad = {}
+    for k in range(0, maxlen + 1):
+        for body in itertools.product(alphabet, repeat=k):
+            for q in ('"', "'"):
+                text = q + ''.join(body)
+                n += 1
+                lexer = Obj('Lexer', lineno=1,
+                            _get_colno=('pyfunc', lambda t: 1),
+                            _get_colno_lexpos=('pyfunc', lambda p_: p_ + 1),
+                            _update_newline_idx=('pyfunc', lambda t: None),
+                            lexer=Obj('PlyLexer', lexpos=0, lexdata=text,
+                                      lineno=1))
+                token = Obj('LexToken', type='error', value=text, lineno=1,
+                            lexpos=0)
+                ev = Evaluator(lm, None, {}, {
+                    're.match': _re.match, 'repr_compat': repr})
+                out = 'returns'
+                try:
+                    ev.call(h, [lexer, token])
+                except Raised as e:
+                    out = e.text
+                except AttributeError as e:
+                    out = 'AttributeError: %s' % e
+                if out == 'returns' or out.startswith('ECMASyntaxError'):
+                    continue
+                bad.setdefault(out.split('(')[0].split(':')[0], []).append(
+                    text)
+    for kind, texts in sorted(bad.items()):
+        r6.fail('broken_string_token_handler %s' % kind,
+                'broken_string_token_handler on %r (+%d more inputs)' % (
+                    texts[0], len(texts) - 1),
+                'raises %s instead of the syntax error for the remaining '
+                'input %s' % (kind, ', '.join(repr(t) for t in texts[:6])),
+                witness=texts[0],
+                where='lexers/es5.py:broken_string_token_handler')
+    for _ in range(n - len(bad)):
+        r6.ok('broken_string_token_handler input')
+    report.count('R12.6: remaining-input strings evaluated', n)
+    return r6
+
+
 def run(report, index, tier):
     report.explanation = (
         'May-raise / error-discipline analysis of lexers/es5.py and '
@@ -404,6 +500,43 @@ def run(report, index, tier):
             ret = None
         if ret is None:
             auto_nonnull = False
+    # which self attributes a method may assign, transitively through
+    # self.<method>() calls (for precise invalidation of guard facts)
+    method_writes = {}
+    for m_ in (lm, pm):
+        for cname in m_.classes:
+            meths = m_.class_methods(cname)
+            direct, calls = {}, {}
+            for name, fd in meths.items():
+                w, c = set(), set()
+                for n in ast.walk(fd):
+                    if isinstance(n, (ast.Attribute,)) and isinstance(
+                            n.ctx, (ast.Store, ast.Del)) and isinstance(
+                            n.value, ast.Name) and n.value.id == 'self':
+                        w.add(n.attr)
+                    if isinstance(n, ast.Call) and isinstance(
+                            n.func, ast.Attribute) and isinstance(
+                            n.func.value, ast.Name) and \
+                            n.func.value.id == 'self':
+                        if n.func.attr in meths:
+                            c.add(n.func.attr)
+                        else:
+                            w.add('*')
+                    if isinstance(n, ast.Call) and isinstance(
+                            n.func, ast.Name) and n.func.id == 'setattr':
+                        w.add('*')
+                direct[name], calls[name] = w, c
+            changed_ = True
+            while changed_:
+                changed_ = False
+                for name in meths:
+                    for c in calls[name]:
+                        if not direct[c] <= direct[name]:
+                            direct[name] |= direct[c]
+                            changed_ = True
+            for name, w in direct.items():
+                method_writes.setdefault(cname, {})[name] = \
+                    None if '*' in w else w
     nsites = 0
     for m, cls, f in allfuncs:
         if f.name.startswith('p_') and f.name != 'p_error':
@@ -433,24 +566,14 @@ def run(report, index, tier):
 
         def is_nullable(t, local_null=local_null):
             return t in local_null or field_nullable(t)
-        an = Analyzer(f, is_nullable, nullable_calls=nullable_funcs)
-        # summary-based fact: after `r = X.auto_semi(tok); if r is not
-        # None: return`, tok is not None (auto_semi(None) is never None)
+        mw = method_writes.get(cls)
+        if mw is not None:
+            mw = {k: v for k, v in mw.items() if v is not None}
+        an = Analyzer(f, is_nullable, nullable_calls=nullable_funcs,
+                      nonnull_calls=NONNULL_SOURCES, method_writes=mw,
+                      none_only_for_none=('auto_semi',) if auto_nonnull
+                      else ())
         sites = an.run()
-        if auto_nonnull and f.name == 'p_error':
-            body = [s for s in f.body]
-            if len(body) >= 2 and isinstance(body[0], ast.Assign) and \
-                    isinstance(body[0].value, ast.Call) and \
-                    ast.unparse(body[0].value.func).endswith('auto_semi') \
-                    and isinstance(body[1], ast.If) and an.exits(
-                        body[1].body):
-                arg = ast.unparse(body[0].value.args[0])
-                res = ast.unparse(body[0].targets[0])
-                if ast.unparse(body[1].test) == '%s is not None' % res:
-                    an2 = Analyzer(f, is_nullable, nullable_calls=nullable_funcs)
-                    facts = {arg}
-                    facts = an2.block(body[2:], facts)
-                    sites = an2.sites
         # count guarded dereferences too (for the instance floor)
         for n in ast.walk(f):
             if isinstance(n, (ast.Attribute, ast.Subscript)) and is_ref(
@@ -465,9 +588,10 @@ def run(report, index, tier):
                 t = ast.unparse(n.value)
                 construct = '%s: %s' % (f.name, ast.unparse(n))
                 if (f.name, t) in bad and bad[(f.name, t)] is n:
-                    if (f.name, t) in TRIAGE_NULL:
-                        r2.ok(construct, 'triaged: ' + TRIAGE_NULL[
-                            (f.name, t)])
+                    tri = TRIAGE_NULL.get((f.name, t)) or TRIAGE_NULL.get(
+                        ('*', t))
+                    if tri:
+                        r2.ok(construct, 'triaged: ' + tri)
                         continue
                     r2.fail('%s dereferences %s' % (f.name, t), construct,
                             '`%s` is tested against None elsewhere (or '
@@ -524,6 +648,9 @@ def run(report, index, tier):
                 if id(n) in guarded_by_try:
                     r3.ok(construct, 'inside try/except IndexError')
                     continue
+                if f.name in TABLE_COVERED:
+                    r3.ok(construct, 'decided by the table of R12.6')
+                    continue
                 guards = dominating_guards(f, n)
                 if isinstance(n.value, ast.Dict):
                     keys = [k.value for k in n.value.keys
@@ -568,7 +695,9 @@ def run(report, index, tier):
                                 where=where)
                     continue
                 inv = invariant_discharges(t, invariants.get(cls, {}))
-                if inv is not None:
+                if f.name in TABLE_COVERED:
+                    r3.ok(construct, 'decided by the table of R12.6')
+                elif inv is not None:
                     r3.ok(construct, inv)
                 elif (f.name, t) in TRIAGE_PARTIAL:
                     r3.ok(construct, 'triaged: ' + TRIAGE_PARTIAL[
@@ -589,6 +718,7 @@ def run(report, index, tier):
                       'backslash and escape letter that the preceding '
                       'lookup (R12.3 dict rule) already demands')
     # R12.5 ---------------------------------------------------------------
+    r126(report, index, lm, pm, tier)
     from .shared import models
     from engine.actions import Slot
     M = models(index)
